@@ -297,16 +297,45 @@ def run(ctx, rep):
         sso = show_origin(src)
         kind = None
         b = s["body"]
-        if src[0] == "call" and src[1] == TRK + "current_word_mem_pos":
-            kind = "word position"
-        elif src[0] == "call" and src[1] and src[1].endswith("AlpideReadoutFrame::start_mem_pos"):
-            kind = "frame start"
-        elif root_param(src) is not None:
-            rp = root_param(src)
-            pty = f.fns[s["fn"]]["mir"]["locals"][rp[0]]["ty"]["s"]
-            pname = b.names.get(rp[0], "")
-            if "mem_pos" in pname or rp[1] == (".2",):
-                kind = "offset parameter %s%s" % (pname, "".join(rp[1]))
+
+        def _offset_kind(b_, fn_, src_, depth_=0):
+            """what the leading offset is: a word position, the frame start, the packet-offset parameter of an entry
+            point — or, for a parameter of a private reporting helper, what every caller passes for it"""
+            if src_[0] == "call" and src_[1] == TRK + "current_word_mem_pos":
+                return "word position"
+            if src_[0] == "call" and src_[1] and src_[1].endswith("AlpideReadoutFrame::start_mem_pos"):
+                return "frame start"
+            rp_ = root_param(src_)
+            if rp_ is None:
+                return None
+            pname_ = b_.names.get(rp_[0], "")
+            if "mem_pos" in pname_ or rp_[1] == (".2",):
+                return "offset parameter %s%s" % (pname_, "".join(rp_[1]))
+            if depth_ >= 3:
+                return None
+            kinds_ = set()
+            sites_ = [(p_, t_) for p_, bb_, t_, cal_, c_ in cg.call_sites(lambda c__: c__ == fn_, within=reach)]
+            for p_, t_ in sites_:
+                if rp_[0] - 1 >= len(t_["args"]):
+                    return None
+                cb_ = cg.body(p_)
+                o_ = cb_.origin(t_["args"][rp_[0] - 1])
+                for pr_ in rp_[1]:
+                    while isinstance(o_, tuple) and o_ and o_[0] == "ref":
+                        o_ = o_[1]
+                    if pr_ == "*":
+                        continue
+                    m_ = re.fullmatch(r"\.(\d+)", str(pr_))
+                    if m_ and isinstance(o_, tuple) and o_ and o_[0] == "agg" and int(m_.group(1)) < len(o_[2]):
+                        o_ = o_[2][int(m_.group(1))]
+                    else:
+                        o_ = ("proj", o_, (pr_,))
+                kinds_.add(_offset_kind(cb_, p_, o_, depth_ + 1))
+            if sites_ and None not in kinds_ and len({k_.split(" ")[0] for k_ in kinds_}) == 1:
+                return "%s (handed in by %s)" % (sorted(kinds_)[0], ", ".join(sorted({p_.split("::")[-1] for p_, t_ in sites_})))
+            return None
+        if (src[0] == "call" and src[1] and (src[1] == TRK + "current_word_mem_pos" or src[1].endswith("AlpideReadoutFrame::start_mem_pos"))) or root_param(src) is not None:
+            kind = _offset_kind(b, s["fn"], src)
         elif src[0] == "call" and src[1] and (src[1].endswith("ScanCDP>::current_mem_pos") or src[1].endswith("MemPosTracker::current_mem_address")) \
                 and s["fn"].replace("<", "").startswith("alice_protocol_reader::"):
             kind = None
